@@ -73,11 +73,34 @@ def opMinPlus (args : List String) : Option String := do
     pure (showFloats (cells.map (·.1)) ++ "/" ++ showNats (cells.map (·.2)))
   | _ => none
 
+def showPair (p : Nat × Nat) : String := s!"{p.1}:{p.2}"
+def showTile (t : Tile) : String := s!"{t.r.1}:{t.r.2}x{t.c.1}:{t.c.2}"
+
+/-- `chunks L b` / `mtiles n m p block` / `dtiles n1 n2 block` -/
+def opChunks (args : List String) : Option String := do
+  match args with
+  | [l, b] => let l ← nat? l; let b ← nat? b
+              if b = 0 then none else pure (join ((chunks l b).map showPair))
+  | _ => none
+def opMTiles (args : List String) : Option String := do
+  match args with
+  | [n, m, p, b] => let n ← nat? n; let m ← nat? m; let p ← nat? p; let b ← nat? b
+                    if b = 0 || m = 0 then none else pure (join ((minTimesTiles n m p b).map showTile))
+  | _ => none
+def opDTiles (args : List String) : Option String := do
+  match args with
+  | [n, m, b] => let n ← nat? n; let m ← nat? m; let b ← nat? b
+                 if b = 0 then none else pure (join ((distTiles n m b).map showTile))
+  | _ => none
+
 def dispatch (op : String) (args : List String) : String :=
   let r : Option String :=
     match op with
     | "fermat" => opFermat args
     | "minplus" => opMinPlus args
+    | "chunks" => opChunks args
+    | "mtiles" => opMTiles args
+    | "dtiles" => opDTiles args
     | _ => none
   match r with
   | some s => "ok " ++ s
